@@ -29,3 +29,21 @@ PROPS["C15"] = {
     "level_text": "Bounded symbolic model checking of the real normaliser: for every text run up to the length bound the solver proves, path by path, that the output equals the line-joining rule; no sampling inside the bound.",
     "level_note": "Bound: run length (see evidence.bounds). Trusted: go/ssa, the gosym interpreter (cross-validated by native replay), z3, the reference rule in the harness.",
 }
+
+# ---------------------------------------------------------------- C03
+PROPS["C03"] = {
+    "jobs": [
+        Job("soyhtml", "H_escape", "0..3", workers=8),
+        Job("soyhtml", "H_decision", "0..3,0..3,0..8,0", workers=16),
+        Job("soyhtml", "H_decision", "0..1,0..1,0..8,1..4", workers=16),
+        Job("soyhtml", "H_nonString", "0..4", workers=4),
+        Job("soyhtml", "H_escape", "4..5", tier="thorough", workers=16),
+        Job("soyhtml", "H_decision", "0..3,0..3,0..8,1..4", tier="thorough", workers=16, note="all modes in all contexts"),
+    ],
+    "bounds_quick": "htmlEscapeString on all strings of <= 3 bytes (256 values each); evalPrint escape decision for $x = any 2 non-NUL bytes under 4x4 namespace/template autoescape attributes x 9 directive chains (direct print) and 2x2 modes x 9 chains in let-content, param-content, msg-placeholder and cross-namespace call contexts; non-string values",
+    "bounds_thorough": "escaper <= 5 bytes; all 16 mode pairs in every context",
+    "outside": "strings longer than the bound; user-registered directives; changeNewlineToBr (regexp) is checked with concrete strings under C16; contextual escaping beyond what soy implements",
+    "assumptions": ["decodeEntities (harness) is the reference decoder of the five character references"],
+    "level_text": "Bounded symbolic model checking of the real escaper and of the real parse+render pipeline around evalPrint: the printed value is symbolic, every path of the escaping code is discharged by the solver, so value-dependent holes (a special character that slips through only for certain values) are found or excluded within the bound.",
+    "level_note": "Bounds: value length, directive chains from the built-in table, contexts listed in evidence. Trusted: go/ssa, gosym (native replay), z3, reference decoder.",
+}
